@@ -172,9 +172,12 @@ func (c *FileCache[MetadataT]) Get(key CacheKey) (*Entry[MetadataT], error) {
 
 	metrics.Global.Cache.CacheHits.Increment()
 	slog.Debug("Successful cache hit", "key", key.Hex)
+	// The caller gets its own copy of the metadata: the stored one keeps changing under the
+	// entry's lock (LastAccess, Expires on revalidation) after this call has returned.
+	metaCopy := *entryMeta
 	return &Entry[MetadataT]{
 		Data:     dataFile,
-		Metadata: entryMeta,
+		Metadata: &metaCopy,
 		Stale:    stale,
 	}, nil
 }
@@ -257,9 +260,10 @@ func (c *FileCache[MetadataT]) Cache(key CacheKey, data io.Reader, expires time.
 		return nil, fmt.Errorf("%w: failed to seek to start of cache file '%s'", ErrCacheFileRead, fileName)
 	}
 
+	metaCopy := *meta
 	return &Entry[MetadataT]{
 		Data:     file,
-		Metadata: meta,
+		Metadata: &metaCopy,
 	}, nil
 }
 
@@ -320,5 +324,6 @@ func (c *FileCache[MetadataT]) GetMetadata(key CacheKey) (meta *EntryMetadata[Me
 	metaPtr.LastAccess = time.Now() // Now safe because we have a full Lock
 
 	slog.Debug("Successfully retrieved metadata", "key", key.Hex)
-	return metaPtr, stale, nil
+	metaCopy := *metaPtr
+	return &metaCopy, stale, nil
 }
